@@ -10,7 +10,7 @@ import types
 
 import z3
 
-from .core import (Ctx, Undecided, Sym, SInt, SBool, SStr, SSet, SSeq, Lit, IntLit, Val, Rep,
+from .core import (Ctx, Undecided, Sym, SInt, SBool, SStr, SSet, SSeq, Lit, IntLit, Val, Rep, Pct, SChar, QChar,
                    SetLit, SeqLit, MSet, SSetStr, mkstr, has_sym, is_sym)
 
 # builtins that only look at the *structure* of their (concrete) container arguments and never
@@ -406,10 +406,14 @@ class Models(object):
                 return True
             if isinstance(a, Val) and a.nonempty:
                 return True
+            if isinstance(a, Pct) and a.u.nonempty:
+                return True
         conds = []
         for a in s.atoms:
             if isinstance(a, Val):
                 conds.append(z3.Length(a.v) > 0)
+            elif isinstance(a, Pct):
+                conds.append(z3.Length(a.u.v) > 0)
             elif isinstance(a, Rep):
                 if a.pattern:
                     conds.append(a.seq.length > 0)
@@ -431,6 +435,10 @@ class Models(object):
             elif isinstance(a, IntLit):
                 self.used("z3-strings")
                 total = total + z3.Length(SStr([a]).z3())
+            elif isinstance(a, Pct):
+                n = self.ctx.fresh_int("pctlen")
+                self.ctx.assume(n >= z3.Length(a.u.v))          # escaping never shortens
+                total = total + n
             else:
                 raise Undecided("len of %r" % (a,))
         return SInt(total)
@@ -514,10 +522,14 @@ class Models(object):
                 if first_ok(rest[0]):
                     return False
             # (3) sep = suffix-of-hole ++ prefix-of-right
+            at_end = (i + 1 == len(atoms))
             for k in range(1, L):
+                if at_end:
+                    break                  # nothing follows the hole: an occurrence cannot run past the end
                 if right is None:
                     return False
-                if not right.startswith(sep[L - k:]) and not (len(right) < k):
+                need = sep[L - k:]
+                if not right.startswith(need) and not (len(right) < k and need.startswith(right) and i + 2 < len(atoms)):
                     continue
                 head = sep[:L - k]
                 if last_ok(head[-1]):
@@ -531,7 +543,60 @@ class Models(object):
                 return False
         return True
 
+    def str_split_ws(self, s, maxsplit):
+        """s.split(None, maxsplit): holes before the last piece must exclude white space"""
+        pieces = []
+        cur = []
+        atoms = list(s.atoms)
+        i = 0
+        while i < len(atoms):
+            a = atoms[i]
+            if maxsplit >= 0 and len(pieces) >= maxsplit:
+                break
+            if isinstance(a, Lit):
+                j = 0
+                txt = a.s
+                while j < len(txt):
+                    if maxsplit >= 0 and len(pieces) >= maxsplit:
+                        break
+                    if txt[j].isspace():
+                        if cur:
+                            pieces.append(cur)
+                            cur = []
+                        j += 1
+                    else:
+                        k = j
+                        while k < len(txt) and not txt[k].isspace():
+                            k += 1
+                        cur.append(Lit(txt[j:k]))
+                        j = k
+                if j < len(txt):
+                    atoms[i] = Lit(txt[j:])
+                    break
+                i += 1
+            else:
+                fn = _allowed_fn(a)
+                if fn is None or any(fn(c, w) for c in _WS for w in ("first", "last", "any")):
+                    raise Undecided("split(None): a hole may contain white space")
+                cur.append(a)
+                i += 1
+        rest = atoms[i:]
+        if maxsplit >= 0 and len(pieces) >= maxsplit:
+            if cur:
+                raise Undecided("split(None, n): internal state")
+            tail = SStr(rest)
+            tail = SStr.of(self.str_strip(tail, "lstrip", _WS)) if rest else SStr([])
+            if tail.atoms:
+                pieces.append(list(tail.atoms))
+        else:
+            if cur:
+                pieces.append(cur)
+        self.used("tmpl-split-whitespace")
+        return [mkstr(SStr(p)) for p in pieces]
+
     def str_split(self, s, sep, maxsplit=-1):
+        if sep is None and not isinstance(maxsplit, Sym):
+            return self.str_split_ws(s, maxsplit)
         if isinstance(sep, SStr) or sep is None or maxsplit != -1:
             raise Undecided("split with symbolic / default separator")
         if not self._barrier_ok(s, sep):
@@ -618,6 +683,17 @@ class Models(object):
             if self._barrier_ok(s, args[0]):
                 return sum(a.s.count(args[0]) for a in s.atoms if isinstance(a, Lit))
             raise Undecided("count: needle may occur in a hole")
+        if name == "splitlines" and isinstance(s, SStr):
+            breaks = "\n\r\x0b\x0c\x1c\x1d\x1e\x85\u2028\u2029"
+            for a in s.atoms:
+                if isinstance(a, Lit):
+                    if any(c in a.s for c in breaks):
+                        raise Undecided("splitlines: literal line break inside a string with holes")
+                else:
+                    fn = _allowed_fn(a)
+                    if fn is None or any(fn(c, w) for c in breaks for w in ("first", "last", "any")):
+                        raise Undecided("splitlines: a hole may contain a line break character")
+            return [s]
         if name == "lower" and isinstance(s, SStr):
             raise Undecided("lower() of symbolic string")
         if name in ("rstrip", "strip", "lstrip"):
@@ -651,10 +727,13 @@ class Models(object):
                     if any(c in "0123456789-" for c in chars):
                         raise Undecided("strip digits")
                     break
-                if isinstance(a, Val):
+                if isinstance(a, (Val, Pct)):
                     allowed = _allowed_fn(a)
-                    if a.nonempty and not any(allowed(c, "last") for c in chars):
+                    nonempty_ = a.nonempty if isinstance(a, Val) else a.u.nonempty
+                    if nonempty_ and not any(allowed(c, "last") for c in chars):
                         break
+                    if isinstance(a, Pct):
+                        raise Undecided("strip: escaped hole may end with a stripped character")
                     if not any(allowed(c, "last") for c in chars):
                         # hole may be empty: if so the previous atom is exposed
                         if a.nonempty or len(atoms) == 1:
@@ -675,9 +754,10 @@ class Models(object):
                         break
                     atoms.pop(0)
                     continue
-                if isinstance(a, Val):
+                if isinstance(a, (Val, Pct)):
                     allowed = _allowed_fn(a)
-                    if a.nonempty and not any(allowed(c, "first") for c in chars):
+                    nonempty_ = a.nonempty if isinstance(a, Val) else a.u.nonempty
+                    if nonempty_ and not any(allowed(c, "first") for c in chars):
                         break
                     raise Undecided("lstrip: hole may start with a stripped character")
                 if isinstance(a, IntLit):
@@ -753,6 +833,12 @@ class Models(object):
                 return SStr([SetLit(e, sep)])
             if items.kind == "intstr":
                 return SStr([SeqLit(items.elem, sep)])
+            if items.kind == "qchars" and sep == "":
+                import gffutils.parser as P
+                q = items.elem
+                if q.fobj is P.quoter:
+                    return SStr([Pct(q.v)])
+                raise Undecided("per-character map through an unknown table")
             raise Undecided("join over abstract sequence of kind %s" % items.kind)
         items = list(self.interp.iterate(items))
         parts = []
@@ -794,6 +880,21 @@ class Models(object):
             else:
                 if atoms and isinstance(atoms[-1], Lit) and len(atoms[-1].s) >= -idx:
                     return atoms[-1].s[idx]
+            if idx in (0, -1) and atoms:
+                a = atoms[0] if idx == 0 else atoms[-1]
+                base = a.u if isinstance(a, Pct) else (a if isinstance(a, Val) else None)
+                if base is not None and base.nonempty:
+                    # an arbitrary first / last character of a non-empty hole: a fresh one-character
+                    # string that inherits the hole's exclusions at that position
+                    where = "first" if idx == 0 else "last"
+                    fn = _allowed_fn(a)
+                    probe = set(base.excl) | set(base.excl_first) | set(base.excl_last) | set(";=,\" \t\n\r#>&") | (reserved_chars() if isinstance(a, Pct) else set())
+                    excl = frozenset(ch for ch in probe if not fn(ch, where))
+                    v = self.ctx.fresh_str("ch")
+                    self.ctx.assume(z3.Length(v) == 1)
+                    # the exclusions are used structurally (comparison with a literal); they are not
+                    # handed to the string solver
+                    return SStr([Val(v, excl=excl, nonempty=True, tag="char")])
             return self._z3_char(s, idx)
         raise Undecided("string index %r" % (idx,))
 
@@ -845,6 +946,8 @@ class Models(object):
             return obj.elem(z3.simplify(pos))
         if isinstance(obj, (list, tuple)) and isinstance(idx, SInt):
             raise Undecided("symbolic index into concrete list")
+        if isinstance(idx, SChar) and isinstance(obj, dict):
+            return QChar(obj, idx.v)
         if isinstance(obj, dict) and isinstance(idx, SStr):
             # lookup by symbolic string key among the (concrete or symbolic) string keys
             k = self._find_key(obj, idx)
@@ -922,6 +1025,18 @@ class Models(object):
                 and isinstance(node.elt, ast.Constant) and isinstance(node.elt.value, str):
             self._comp_abstract = SSeq(it.length, node.elt.value, name="const(%s)" % it.name, kind="const")
             return True
+        # [f[c] for c in <symbolic string>]  ->  per-character map (joined later)
+        if isinstance(it, SStr) and len(it.atoms) == 1 and isinstance(it.atoms[0], Val) and len(gens) == 1 and not g.ifs \
+                and isinstance(node, (ast.ListComp, ast.GeneratorExp)) and isinstance(g.target, ast.Name):
+            from .interp import Env
+            inner = Env({g.target.id}, env, env.globals, func=env.func)
+            inner.vars[g.target.id] = SChar(it.atoms[0])
+            v = self.interp.eval(node.elt, inner)
+            if isinstance(v, QChar) and v.v is it.atoms[0]:
+                self.used("per-character-map-rule")
+                self._comp_abstract = SSeq(self.ctx.fresh_int("nchars"), v, name="chars", kind="qchars")
+                return True
+            raise Undecided("comprehension over the characters of a symbolic string")
         # [g(x) for x in <abstract sequence>] with an int-valued g  ->  abstract sequence (pointwise rule)
         if isinstance(it, SSeq) and it.kind not in ("setlist",) and len(gens) == 1 and not g.ifs \
                 and isinstance(node, (ast.ListComp, ast.GeneratorExp)) and isinstance(g.target, ast.Name):
@@ -1078,6 +1193,8 @@ class Models(object):
             raise TypeError("object of type '%s' has no len()" % _tname(x))
         if isinstance(x, (list, tuple, dict, str, set, frozenset, range, bytes)):
             return len(x)
+        if hasattr(x, "_pyvc_len"):
+            return x._pyvc_len
         f = getattr(type(x), "__len__", None)
         if isinstance(f, types.FunctionType) and self.interp.should_interpret(f):
             return self.interp.len_value(self.interp.call(f, [x], {}))
@@ -1216,6 +1333,21 @@ class Models(object):
         else:
             keys = items
         if has_sym(keys):
+            if all(isinstance(k, (SInt, int)) and not isinstance(k, bool) for k in keys):
+                # stable insertion sort, branching on the comparisons
+                self.used("sorted-stable(symbolic integer keys, branching)")
+                order = []
+                for i in range(len(items)):
+                    pos = len(order)
+                    for j in range(len(order) - 1, -1, -1):
+                        a, b = _int(keys[order[j]]), _int(keys[i])
+                        before = (a < b) if reverse else (a > b)        # order[j] must come after the new item
+                        if self.ctx.branch(before, "sort-cmp"):
+                            pos = j
+                        else:
+                            break
+                    order.insert(pos, i)
+                return [items[i] for i in order]
             raise Undecided("sorted with symbolic keys")
         order = sorted(range(len(items)), key=lambda i: keys[i], reverse=reverse)
         self.used("sorted-stable")
@@ -1398,8 +1530,35 @@ def _kind(x):
     return type(x).__name__
 
 
+def reserved_chars():
+    import gffutils.parser as P
+    return set(P._to_quote)
+
+
 def _allowed_fn(a):
     """Returns f(ch, where) -> may character ch occur in hole a at position 'first'/'last'/'any'."""
+    if isinstance(a, Pct):
+        res = reserved_chars()
+        u = a.u
+
+        def f(ch, where, u=u, res=res):
+            if ch in res and ch != "%":
+                return False                      # escaped away
+            if ch == "%":
+                return True                       # every escape starts with it
+            if ch in "0123456789ABCDEF":
+                # hex digits also come from escapes; as *first* character only from u itself
+                if where == "first":
+                    return ch not in u.excl and ch not in u.excl_first
+                return True
+            if ch in u.excl:
+                return False
+            if where == "first" and ch in u.excl_first:
+                return False
+            if where == "last" and ch in u.excl_last:
+                return False
+            return True
+        return f
     if isinstance(a, Val):
         def f(ch, where, a=a):
             if ch in a.excl:
@@ -1437,7 +1596,9 @@ def _allowed_fn(a):
 def _struct_eq(a, b):
     """Structural (in)equality of two strings with holes: True / False / None."""
     if len(a.atoms) == len(b.atoms) and all(x is y or (isinstance(x, Lit) and isinstance(y, Lit) and x.s == y.s)
-                                           or (isinstance(x, Val) and isinstance(y, Val) and x.v is y.v)
+                                           or (isinstance(x, Val) and isinstance(y, Val) and (x.v is y.v or x.v.eq(y.v)))
+                                           or (isinstance(x, Pct) and isinstance(y, Pct) and (x.u.v is y.u.v or x.u.v.eq(y.u.v)))
+                                           or (isinstance(x, IntLit) and isinstance(y, IntLit) and z3.simplify(x.e).eq(z3.simplify(y.e)))
                                            for x, y in zip(a.atoms, b.atoms)):
         return True
     # one side concrete
